@@ -151,7 +151,57 @@ def par_convert(ctx, rule="C10.par-convert"):
                    "deletion the parameter is bound to another mode" if pos else "q<k> is not resolved through reg_refs"),
                    role="lookup", line=n.lineno)
     ctx.require(found, "par_convert no longer builds MeasuredParameter objects")
-    ctx.floor(rule, 1)
+    # the mode index is the WHOLE numeric suffix of the symbol name
+    for n in walk_no_nested(f.node):
+        if isinstance(n, ast.Call) and dotted(n.func) == "MeasuredParameter" and n.args and isinstance(n.args[0], ast.Subscript):
+            ix = n.args[0].slice
+            d = derives(f.node, ix)
+            txt = ast.unparse(ix).replace(" ", "")
+            if ".name[1:]" in txt and txt.startswith("int("):
+                ctx.ob(rule, f.site, True, role="whole-suffix", line=n.lineno)
+                continue
+            pats = [c for c in d.call_nodes if (dotted(c.func) or "").startswith("re.") and c.args and
+                    isinstance(c.args[0], ast.Constant) and isinstance(c.args[0].value, str)]
+            if not pats:
+                ctx.na(rule, f.site, f"conversion of the symbol name to a mode index not understood: {txt}")
+                continue
+            for c in pats:
+                ok, why = _regex_whole_suffix(c.args[0].value, dotted(c.func))
+                ctx.ob(rule, f.site, ok, "" if ok else f"pattern {c.args[0].value!r}: {why}; q11 would be resolved to another "
+                       "mode than 11", role="whole-suffix", line=c.lineno)
+    ctx.floor(rule, 2)
+
+
+def _regex_whole_suffix(pat: str, fn: str):
+    """does the pattern capture the complete run of digits after 'q' and nothing else match?  Decided on the parsed
+    regular expression (re._parser), not by running it"""
+    try:
+        import re._parser as sre
+        from re._constants import MAXREPEAT
+    except Exception:  # pragma: no cover
+        return True, ""
+    try:
+        parsed = list(sre.parse(pat))
+    except Exception as e:
+        return False, f"pattern does not parse: {e}"
+    ops = [(str(op), av) for op, av in parsed]
+    names = [o for o, _ in ops]
+    if not names or names[0] != "LITERAL" or ops[0][1] != ord("q"):
+        return False, "pattern does not start with the literal 'q'"
+    grp = [av for o, av in ops if o == "SUBPATTERN"]
+    if not grp:
+        return False, "no capturing group for the index"
+    inner = list(grp[0][3])
+    rep = [(str(o), av) for o, av in inner]
+    if len(rep) != 1 or rep[0][0] not in ("MAX_REPEAT",):
+        return False, "the group captures a single digit, not the whole run of digits"
+    lo, hi, _ = rep[0][1]
+    if hi != MAXREPEAT:
+        return False, "the number of captured digits is bounded"
+    anchored = fn.endswith("fullmatch") or any(o == "AT" and "END" in str(av) for o, av in ops)
+    if not anchored:
+        return False, "the pattern is not anchored at the end of the name (use fullmatch or $)"
+    return True, ""
 
 
 def ctor_guard(ctx, rule="C10.symbol-cache"):
